@@ -41,7 +41,7 @@ class C20(Prop):
     table_groups = ['Bloom']
     theorems = ['BtcVerif.C20.' + t for t in (
         'murmur_eq_spec', 'bloom_hash_eq_schedule', 'bits_eq_schedule', 'contains_eq_spec', 'no_false_negative',
-        'run_ok', 'caps', 'created_le_requested', 'create_ok', 'bits_after_history', 'ser_roundtrip', 'reload_preserves_answers', 'empty_matches_all', 'empty_arrives')]
+        'run_ok', 'caps', 'created_le_requested', 'create_ok', 'ctor_rate_nonpos', 'ctor_zero_elements', 'ctor_caps', 'bits_after_history', 'ser_roundtrip', 'reload_preserves_answers', 'empty_matches_all', 'empty_arrives')]
     anchors = [('bitcoin/bloom.py', '_ROTL32'), ('bitcoin/bloom.py', 'MurmurHash3'),
                ('bitcoin/bloom.py', 'CBloomFilter.__init__'), ('bitcoin/bloom.py', 'CBloomFilter.bloom_hash'),
                ('bitcoin/bloom.py', 'CBloomFilter.insert'), ('bitcoin/bloom.py', 'CBloomFilter.contains'),
@@ -258,6 +258,13 @@ class C20(Prop):
                     ops = [self._tok('ins', es[0]), self._tok('has', es[0])] + ops
                 yield mk('c20.hist', 'w:' + w.hex(), ','.join(ops), tag='wire')
                 yield mk('c20.spec.hist', 'w:' + w.hex(), ','.join(ops), tag='wire-spec')
+        # "any hash-function count" on non-empty data: the full byte (0xff shortcut) answers at once whatever k
+        for k in (100001, 65536, 0x7fffffff, 0x80000000, 0xffffffff):
+            for first in ('c:616263', 'i:616263', 'q:' + '11' * 32 + ':0'):
+                if mine(1):
+                    w = wire(b'\xff', k, rng.choice(tweaks), 1)
+                    yield mk('c20.hist', 'w:' + w.hex(), first + ',d,c:00,i:00,c:00,p,z,s,r,c:616263', tag='wire-full-bigk')
+                    yield mk('c20.spec.hist', 'w:' + w.hex(), first + ',d,c:00', tag='wire-full-bigk-spec')
         # zero-length data x every interesting k, queried and inserted (D16)
         for k in [0, 1, 2, 3, 50, 51, 255, 256, 65535, 0x7fffffff, 0x80000000, 0xffffffff]:
             for first in ('c:616263', 'i:616263', 'q:' + '11' * 32 + ':0', 'o:' + '22' * 32 + ':7', 'c:'):
@@ -347,43 +354,33 @@ class C20(Prop):
         raise ValueError(op)
 
     @staticmethod
-    def _exact_xy(n, rate, size):
-        """The sizing formula of BIP37 evaluated with 60-digit decimal arithmetic, independently of the float
-        expression (and of the float constants) in the constructor:
-            x = -n * ln(p) / ln(2)^2      y = size * 8 / n * ln(2)
-        Returns specs for the driver: 'r:<num>:<den>' or 'e:<family>' where the Python expression raises."""
+    def _ctor_args(n, rate):
+        """Arguments of Model.Bloom.createPy: nElements, the exact value of the float nFPRate, and 60-digit decimal
+        values of ln(nFPRate), 1/ln(2)^2 and ln(2) — computed independently of the float expression and of the float
+        constants in the constructor.  Which exception arises (rate <= 0, nElements = 0, negative size) is decided by
+        the model from these, not by the harness."""
         import decimal
         with decimal.localcontext() as ctx:
             ctx.prec = 60
             ln2 = Decimal(2).ln()
-            if rate <= 0:
-                xs = 'e:valueerr'                      # math.log: math domain error
-            else:
-                X = Fraction(-n * Decimal(rate).ln() / (ln2 * ln2)) if rate != 1.0 else Fraction(0)
-                xs = 'r:%d:%d' % (X.numerator, X.denominator)
-            if n == 0:
-                ys = 'e:py:ZeroDivisionError'
-            else:
-                Y = Fraction(Decimal(size) * 8 / Decimal(n) * ln2)
-                ys = 'r:%d:%d' % (Y.numerator, Y.denominator)
-        return xs, ys
+            fr = Fraction(rate)
+            lg = Fraction(Decimal(rate).ln()) if rate > 0 and rate != 1.0 else Fraction(0)
+            c = Fraction(1 / (ln2 * ln2))
+            l2 = Fraction(ln2)
+        out = [str(n)]
+        for q in (fr, lg, c, l2):
+            out += [str(q.numerator), str(q.denominator)]
+        return out
 
     def model_line(self, c):
         if c['op'] == 'c20.ctor':
             n, rate = int(c['args'][0]), float(c['args'][1])
-            size = 0
-            try:
-                size = len(self.B.CBloomFilter(n, rate, 0, 0).vData)
-            except Exception:  # noqa: BLE001
-                try:
-                    size = max(0, int(min(x_of(n, rate), CAP_BYTES * 8) / 8))
-                except Exception:  # noqa: BLE001
-                    pass
-            xs, ys = self._exact_xy(n, rate, size)
-            return '\t'.join(['c20.ctor', xs, ys])
+            return '\t'.join(['c20.ctor'] + self._ctor_args(n, rate))
         return c.line
 
     def agree(self, c, io, mo):
+        if c['op'] == 'c20.spec.hist' and mo == 'too-large':
+            return True            # the set-of-bits Spec is not evaluated for k > 100000 (see Driver/C20.lean)
         if c['op'] != 'c20.ctor':
             return io == mo
         if io.startswith('err:') or mo.startswith('err:'):
